@@ -349,6 +349,36 @@ func termSeamWorker(args []string) int {
 	}
 	alphabet := seamAlphabet
 	switch mode {
+	case "c03color":
+		/* Output that carries escape sequences of its own (ls --color, a
+		prompt, a progress bar), whole and split over two chunks: the
+		terminal gets these bytes as they are, whatever the program thinks
+		of colours itself (the worker is started with NO_COLOR set). */
+		for k, chunks := range [][]string{
+			{"one \x1b[31mRED\x1b[0m two\n"},
+			{"three \x1b[3", "2mGREEN\x1b[0m four\n"},
+			{"\x1b[1;34mblue\x1b[m", " \x1b[K\x1b[2Jdone\n"},
+		} {
+			ts, err := newTermSessionOpts(capPath, true, nil, false)
+			if nil != err {
+				res.Err = err.Error()
+				break
+			}
+			quiesce.Wait()
+			ts.output()
+			want := ""
+			for _, c := range chunks {
+				ts.och <- opshell.CLine{Plain: true, Line: c}
+				want += strings.ReplaceAll(c, "\n", "\r\n")
+				quiesce.Wait()
+			}
+			got := ts.output()
+			ts.close()
+			res.Execs++
+			if !strings.Contains(got, want) {
+				add([]seamViol{{Sig: "shell-escape-sequences-changed", What: fmt.Sprintf("the shell sent %q; the terminal received %q", chunks, got), Case: fmt.Sprintf("c03color:%d", k)}})
+			}
+		}
 	case "c03u":
 		/* For a worker started in a UTF-8 locale. */
 		alphabet = "PQUNS"
